@@ -140,21 +140,37 @@ def d1_pipeline(ctx, idx):
                     break
             if loops:
                 lp = loops[0]
-                it = unparse(lp.iter)
-                covers = "['input_list']" in it and 'enumerate' in it or "['input_list']" in it
+                env = lib.local_env(fi.node)
+                it = unparse(nf.subst(lp.iter, env))
+                covers = "['input_list']" in it
                 early = lib.loop_has_early_exit(lp)
-                stores_back = isinstance(st, ast.Assign) and any("['input_list']" in unparse(t) for t in st.targets)
+
+                def _back(t):
+                    return "['input_list'][" in unparse(nf.subst(t, env))
+                stores_back = isinstance(st, ast.Assign) and any(_back(t) for t in st.targets)
                 if isinstance(st, ast.Assign) and len(st.targets) == 1 and isinstance(st.targets[0], ast.Name):
                     tmp = st.targets[0].id
                     stores_back = any(isinstance(x, ast.Assign) and isinstance(x.value, ast.Name) and x.value.id == tmp
-                                      and any("['input_list'][" in unparse(t) for t in x.targets) for x in lp.body)
-                r.check(covers and not early and stores_back, 'AbstractGrader.__call__: list-form filter', 'applied to every entry of input_list',
-                        'the list-form filter does not cover every entry of input_list (%s)' % (
-                            'early exit in the loop' if early else 'loop iterates `%s`' % it if not covers else 'filtered entry is not stored back'),
-                        lib.loc(fi, lp))
-                pos = test is not None and nf.match("'input_list' in %s" % res, test.test) is not None and any(lp is s or lp in ast.walk(s) for s in test.body)
-                r.check(pos, 'AbstractGrader.__call__: list-form selection', "selected by 'input_list' in result",
-                        'the list-form filter is not selected by the presence of input_list', lib.loc(fi, lp))
+                                      and any(_back(t) for t in x.targets) for x in lp.body)
+                if covers and not early and stores_back:
+                    r.ok('AbstractGrader.__call__: list-form filter', 'applied to every entry of input_list', lib.loc(fi, lp))
+                elif early:
+                    r.violation('AbstractGrader.__call__: list-form filter', 'the list-form filter does not cover every entry of input_list '
+                                '(early exit in the loop)', lib.loc(fi, lp))
+                elif not covers:
+                    r.undecided('AbstractGrader.__call__: list-form filter', 'loop iterates `%s`, not recognised as result[\'input_list\']' % it, lib.loc(fi, lp))
+                else:
+                    r.violation('AbstractGrader.__call__: list-form filter', 'the filtered entry is not stored back into input_list', lib.loc(fi, lp))
+                pos = False
+                if test is not None:
+                    in_body = any(lp is s_ or lp in ast.walk(s_) for s_ in test.body)
+                    in_else = any(lp is s_ or lp in ast.walk(s_) for s_ in test.orelse)
+                    pos = (in_body and nf.match("'input_list' in %s" % res, test.test) is not None) or \
+                          (in_else and nf.match("'input_list' not in %s" % res, test.test) is not None)
+                if pos:
+                    r.ok('AbstractGrader.__call__: list-form selection', "selected by 'input_list' in result", lib.loc(fi, lp))
+                else:
+                    r.undecided('AbstractGrader.__call__: list-form selection', 'selection of the list form not recognised', lib.loc(fi, lp))
             else:
                 rebinding = isinstance(st, ast.Assign) and any(isinstance(t, ast.Name) and t.id == res for t in st.targets)
                 r.check(rebinding and unparse(src) == res, 'AbstractGrader.__call__: single-form filter', 'result rebound to the filtered copy',
@@ -217,7 +233,7 @@ def _enclosing_if(node):
 
 # ----------------------------------------------------------------------------- D2
 def d2_keys(ctx, idx):
-    r = ctx.rule('D2.KEYS', 'every result literal carries ok, grade_decimal, msg; long form carries input_list and overall_message', floor=22)
+    r = ctx.rule('D2.KEYS', 'every result literal carries ok, grade_decimal, msg; long form carries input_list and overall_message', floor=15)
     with r:
         for mn in GRADER_MODULES:
             m = idx.module(mn)
@@ -319,7 +335,7 @@ ACCEPTED_REPAIR_GUARDS = ["_R['ok'] == 'partial'", "_R['ok'] is not True", "_R['
 
 
 def d3_ok_follows_grade(ctx, idx):
-    r = ctx.rule('D3.PAIR', "every store to R['grade_decimal'] is paired with a consistent store to R['ok']; literal pairs are consistent", floor=25)
+    r = ctx.rule('D3.PAIR', "every store to R['grade_decimal'] is paired with a consistent store to R['ok']; literal pairs are consistent", floor=15)
     with r:
         n_sites = 0
         for mn in GRADER_MODULES:
@@ -373,10 +389,17 @@ def d3_ok_follows_grade(ctx, idx):
                                 if guard_ok and cfg.must_pass(sn, tn, exits='return'):
                                     covers_true = any(nf.match(g.replace('_R', base), it.test) is not None
                                                       for g in ACCEPTED_REPAIR_GUARDS[1:3] + ACCEPTED_REPAIR_GUARDS[3:])
-                                    if covers_true or _true_results_never_returned(idx, f, base, r):
+                                    fact = True if covers_true else _true_results_never_returned(idx, f, base, r)
+                                    if fact:
                                         verdict = ('ok', 'conditional repair `if %s` + consolidate_results never returns an ok=True element' % unparse(it.test))
                                         break
-                    if verdict:
+                                    if fact is None:
+                                        verdict = ('undecided', 'conditional repair `if %s` relies on consolidate_results never returning an ok=True '
+                                                   'element, whose shape is not recognised' % unparse(it.test))
+                                        break
+                    if verdict and verdict[0] == 'undecided':
+                        r.undecided(construct, verdict[1], where)
+                    elif verdict:
                         r.ok(construct, verdict[1], where)
                     else:
                         r.violation(construct, "`%s` changes the grade but no store of %s['ok'] derived from the new grade follows on every path to "
@@ -428,38 +451,106 @@ def d3_ok_follows_grade(ctx, idx):
         r.check(derived, 'ItemGrader.standardize_cfn_return', 'dictionary form: ok = grade_decimal_to_ok(grade_decimal)',
                 'the sanitiser no longer derives ok from grade_decimal for dictionary returns of comparers', sc.loc)
         ce = idx.func('mitxgraders.helpers.math_helpers.MathMixin.compare_evaluations')
-        comp_calls = [c for c in walk_own(ce.node) if isinstance(c, ast.Call) and isinstance(c.func, ast.Name) and c.func.id == 'comparer']
-        appends = [c for c in lib.calls_named(ce.node, 'append')]
-        allwrapped = bool(appends) and all(any(isinstance(x, ast.Call) and nf.callee_name(x) == 'standardize_cfn_return' for x in ast.walk(a)) for a in appends)
-        r.check(bool(comp_calls) and allwrapped, 'MathMixin.compare_evaluations', 'every comparer result passes standardize_cfn_return',
-                'a comparer result is appended without standardize_cfn_return: ok/grade_decimal/msg of comparer returns are no longer normalised', ce.loc)
+        pname = 'comparer' if 'comparer' in ce.params else None
+        if pname is None:
+            raise AnalysisError('compare_evaluations: parameter comparer vanished')
+        comp_calls = [c for c in walk_all(ce.node) if isinstance(c, ast.Call) and isinstance(c.func, ast.Name) and c.func.id == pname]
+        std_aliases = {'standardize_cfn_return'}
+        for n in walk_all(ce.node):
+            if isinstance(n, ast.Assign) and len(n.targets) == 1 and isinstance(n.targets[0], ast.Name) and \
+                    isinstance(n.value, ast.Attribute) and n.value.attr == 'standardize_cfn_return':
+                std_aliases.add(n.targets[0].id)
+        if not comp_calls:
+            r.undecided('MathMixin.compare_evaluations', 'no direct call of the comparer found', ce.loc)
+        for c in comp_calls:
+            par = parent(c)
+            wrapped = isinstance(par, ast.Call) and nf.callee_name(par) in std_aliases and any(a is c for a in par.args)
+            via_local = False
+            st = lib.enclosing_stmt(c)
+            if not wrapped and isinstance(st, ast.Assign) and st.value is c and len(st.targets) == 1 and isinstance(st.targets[0], ast.Name):
+                name = st.targets[0].id
+                fn_scope = lib.enclosing_function(c) or ce.node
+                uses = [n for n in ast.walk(fn_scope) if isinstance(n, ast.Name) and n.id == name and isinstance(n.ctx, ast.Load)]
+                via_local = bool(uses) and all(isinstance(parent(u), ast.Call) and nf.callee_name(parent(u)) in std_aliases for u in uses)
+            if wrapped or via_local:
+                r.ok('MathMixin.compare_evaluations: comparer(...) result', 'passes standardize_cfn_return', lib.loc(ce, c))
+            elif isinstance(st, ast.Assign) and st.value is c:
+                r.violation('MathMixin.compare_evaluations: comparer(...) result', 'a comparer result is used without standardize_cfn_return: '
+                            'ok/grade_decimal/msg of comparer returns are no longer normalised', lib.loc(ce, c))
+            else:
+                r.undecided('MathMixin.compare_evaluations: comparer(...) result', 'flow of the comparer result not recognised: `%s`' % short(st), lib.loc(ce, c))
 
 
 def _true_results_never_returned(idx, f, base, r):
-    """consolidate_results returns a per-sample element only under `element['ok'] != True`."""
+    """consolidate_results returns a per-sample element only under `element['ok'] != True`.
+
+    True / False (an unguarded element is returned) / None (shape not recognised)."""
     cr = idx.func('mitxgraders.helpers.math_helpers.MathMixin.consolidate_results')
     if not lib.calls_named(f.node, 'consolidate_results'):
-        return False
-    loops = lib.loops_of(cr.node)
-    if len(loops) != 1 or not isinstance(loops[0], ast.For) or not isinstance(loops[0].target, ast.Name):
-        return False
-    elem = loops[0].target.id
+        return None
+    results_param = cr.params[0] if cr.params else 'results'
+    # names that hold elements of `results` filtered by ok != True, and names that hold unfiltered elements
+    filtered, unfiltered = set(), set()
+    tests = ("%s['ok'] != True", "%s['ok'] is not True")
+
+    def is_failing_filter(gen):
+        t = gen.target
+        if not isinstance(t, ast.Name) or unparse(gen.iter) != results_param:
+            return None
+        return any(any(nf.match(g % t.id, c) is not None for g in tests) for c in gen.ifs)
+    gen_names = {}
+    for n in walk_own(cr.node):
+        if isinstance(n, ast.Assign) and len(n.targets) == 1 and isinstance(n.targets[0], ast.Name) and \
+                isinstance(n.value, (ast.GeneratorExp, ast.ListComp)) and len(n.value.generators) == 1 and \
+                isinstance(n.value.elt, ast.Name) and isinstance(n.value.generators[0].target, ast.Name) and \
+                n.value.elt.id == n.value.generators[0].target.id:
+            flt = is_failing_filter(n.value.generators[0])
+            if flt is not None:
+                gen_names[n.targets[0].id] = flt
+    for loop in lib.loops_of(cr.node):
+        if not isinstance(loop, ast.For):
+            return None
+        it = loop.iter
+        tgt = loop.target
+        if isinstance(it, ast.Call) and nf.callee_name(it) == 'enumerate' and it.args and isinstance(tgt, ast.Tuple) and len(tgt.elts) == 2:
+            it, tgt = it.args[0], tgt.elts[1]
+        if not isinstance(tgt, ast.Name):
+            return None
+        src = unparse(it)
+        if src == results_param:
+            unfiltered.add((tgt.id, loop))
+        elif src in gen_names:
+            (filtered if gen_names[src] else unfiltered).add((tgt.id, loop))
+        else:
+            return None
+    decided = False
     for ret in lib.returns_of(cr.node):
         v = ret.value
-        if isinstance(v, ast.Name) and v.id == elem:
+        if isinstance(v, ast.Subscript) and unparse(v.value) in gen_names:
+            if not gen_names[unparse(v.value)]:
+                return False
+            decided = True
+            continue
+        if isinstance(v, ast.Subscript) and unparse(v.value) == results_param:
+            return None
+        if not isinstance(v, ast.Name):
+            continue
+        if any(v.id == name for name, _ in filtered):
+            decided = True
+            continue
+        hit = [lp for name, lp in unfiltered if name == v.id]
+        if hit:
             guarded = False
             for a in ancestors(ret):
-                if isinstance(a, ast.If) and any(nf.match(g % elem, a.test) is not None for g in
-                                                 ("%s['ok'] != True", "%s['ok'] is not True", "not %s['ok'] is True")):
-                    if any(ret in ast.walk(s) for s in a.body):
+                if isinstance(a, ast.If) and any(nf.match(g % v.id, a.test) is not None for g in tests + ("not %s['ok'] is True",)):
+                    if any(ret in ast.walk(s_) for s_ in a.body):
                         guarded = True
-                if a is loops[0]:
+                if a is hit[0]:
                     break
             if not guarded:
                 return False
-        elif isinstance(v, ast.Name) and v.id == 'results' or (isinstance(v, ast.Subscript) and unparse(v.value) == 'results'):
-            return False
-    return True
+            decided = True
+    return True if decided or not (filtered or unfiltered) else None
 
 
 def _pair_verdict(okv, gv, env):
@@ -514,10 +605,10 @@ def d4_ok_map(ctx, idx):
             if t is None:
                 r.ok('ItemGrader.validate_single_answer: ok recomputation', 'unconditional (no pinning at all)', lib.loc(vs, n))
                 continue
-            res = nf.classify("%s['ok'] == 'computed' or %s['grade_decimal'] != 1" % (b, b), t.test)
+            res = nf.classify("%s['ok'] == 'computed' or %s['grade_decimal'] != 1" % (b, b), nf.subst(t.test, lib.local_env(vs.node)))
             r.verdict('ItemGrader.validate_single_answer: pin condition', res, lib.loc(vs, t),
                       expected="recompute iff ok == 'computed' or grade_decimal != 1")
-            argok = nf.match("%s['grade_decimal']" % b, n.value.args[0]) is not None
+            argok = nf.match("%s['grade_decimal']" % b, nf.subst(n.value.args[0], lib.local_env(vs.node))) is not None
             r.check(argok, 'ItemGrader.validate_single_answer: ok recomputation argument', "the answer's grade_decimal",
                     'ok is computed from `%s`' % short(n.value.args[0]), lib.loc(vs, n))
 
